@@ -817,6 +817,25 @@ def round_env(run, tree):
                 for g, _ in c["inds"]:
                     dist = None if cen is None else float(nla.norm(np.array(g) - cen, ord=ordn))
                     env["dist"].append((g, sib.id, dist, None if cen is None else [float(t) for t in cen]))
+    sp = run.spec["sprout"]
+    if sp.get("kind") == "custom" and "mahalanobis" in sp.get("deme_filters", []):
+        # MahalanobisFarEnough: is a candidate inside the extension of a CMA-ES deme of the target level?
+        # (Mahalanobis distance under the strategy's covariance against a chi-squared threshold: numerics of
+        # NumPy / SciPy / cma, computed here on private copies of the genomes)
+        from pyhms.cluster.cluster import Cluster
+        from pyhms.utils.distances import calculate_chi_squared_threshold
+
+        thr = calculate_chi_squared_threshold(percentile=sp.get("percentile", 0.95), dimensions=len(run.spec["bounds"]))
+        env["maha"] = []
+        for did, c in gen["out"].items():
+            d = demes[did]
+            if d.level + 1 < len(tree.levels):
+                for sib in tree.levels[d.level + 1]:
+                    if type(sib).__name__ != "CMADeme":
+                        continue
+                    cl = Cluster.from_deme(sib)
+                    for g, _ in c["inds"]:
+                        env["maha"].append((g, sib.id, bool(cl.is_in_extension(np.array(g, dtype=float), thr))))
     return env
 
 
